@@ -386,10 +386,103 @@ def _case_fn(case, stats):
     return findings
 
 
+def _inflate(spec, extra):
+    """Copy of an item spec whose first byte-string / byte-list leaf is `extra` octets longer, or None."""
+    import copy  # pylint: disable=import-outside-toplevel
+    clone = copy.deepcopy(spec)
+    done = [False]
+
+    def walk(node):
+        if done[0]:
+            return node
+        if isinstance(node, dict):
+            for key in ('b', 'ba'):
+                if set(node) == {key} and isinstance(node[key], str):
+                    done[0] = True
+                    return {key: node[key] + '5a' * extra}
+            if set(node) == {'cycle', 'n'} and all(isinstance(item, int) for item in node['cycle']):
+                done[0] = True
+                return {'cycle': node['cycle'], 'n': node['n'] + extra}
+            return {key: walk(value) for key, value in node.items()}
+        if isinstance(node, list):
+            if node and all(isinstance(item, int) and not isinstance(item, bool) for item in node) and len(node) <= 4096:
+                done[0] = True
+                return {'cycle': node[:5] or [0x5a], 'n': len(node) + extra}
+            return [walk(item) for item in node]
+        return node
+    clone = walk(clone)
+    return clone if done[0] else None
+
+
+def near_bound_cases(ref, seed_value):
+    """Histories that start at (or a few octets below) the ceiling of a vector of variable-sized items: one item is
+    inflated until the body is max - d.  The operations are the ones whose bookkeeping is easiest to get wrong there:
+    reverse (no size change at all), an append / insert that does not fit any more, a replacement by a slightly larger
+    item."""
+    cls = lib.resolve(ref)
+    param = cls.get_param()
+    high = param.max_byte_num
+    if not 300 < high <= 70000:
+        return []
+    found = []
+
+    def collect(item, _stats):
+        if len(found) < 6:
+            found.append(item)
+        return ()
+    hyp.explore(item_strategy(ref), collect, Stats(), 12, seed_value)
+    cases = []
+    for small in found:
+        built = lib.call(specs.build, small)
+        if not built.ok or not lib.call(_item_size, cls, built.value).ok:
+            continue
+        small_size = _item_size(cls, built.value)
+        probe = _inflate(small, 10)
+        if probe is None:
+            continue
+        grown = lib.call(specs.build, probe)
+        if not grown.ok or not lib.call(_item_size, cls, grown.value).ok or _item_size(cls, grown.value) != small_size + 10:
+            continue        # the leaf is not what decides this item's size
+        for delta in (0, 1, 2, 3, 5):
+            extra = high - delta - 2 * small_size
+            if extra <= 0 or small_size + extra > 66000:
+                continue
+            big = _inflate(small, extra)
+            big_built = lib.call(specs.build, big)
+            if not big_built.ok or not lib.call(_item_size, cls, big_built.value).ok \
+                    or _item_size(cls, big_built.value) != small_size + extra:
+                continue        # the item has a ceiling of its own below the vector's
+            alone = lib.call(lambda: cls.parse_exact_size(bytes(cls([big_built.value]).compose())))
+            if not alone.ok or lib.diff(list(alone.value), [big_built.value]):
+                break           # inflating that leaf does not give a valid item (a fixed-width field): not this class
+            for init, ops in (
+                    ([small, big], [{'op': 'reverse'}]),
+                    ([small, small, big][:3] if 3 * small_size + extra <= high else [small, big], [{'op': 'reverse'}, {'op': 'reverse'}]),
+                    ([big, small], [{'op': 'append', 'x': small}]),
+                    ([small, big], [{'op': 'insert', 'i': 0, 'x': small}, {'op': 'reverse'}]),
+                    ([big, small], [{'op': 'setitem', 'i': 1, 'x': _inflate(small, delta + 1)}]),
+                    ([big, small], [{'op': 'pop', 'i': None}, {'op': 'append', 'x': small}, {'op': 'append', 'x': small}])):
+                if len(init) == 3:
+                    extra3 = high - delta - 3 * small_size
+                    if extra3 <= 0:
+                        continue
+                    init = [small, small, _inflate(small, extra3)]
+                if not all(lib.call(specs.build, item).ok for item in init) or \
+                        not all(lib.call(specs.build, op['x']).ok for op in ops if 'x' in op):
+                    continue
+                cases.append({'cls': ref, 'init': init, 'ops': ops, 'via': 'list', 'nested_edit': None, 'near_bound': delta})
+        break
+    return cases
+
+
 def _job(arg):
     ref, examples, max_ops, seed_value, budget_s = arg
     stats = Stats()
     hyp.explore(op_strategy(ref, max_ops), _case_fn, stats, examples, seed_value, budget_s=budget_s)
+    for case in near_bound_cases(ref, seed_value):
+        stats.labels['near-bound-history'] += 1
+        for finding in _case_fn(case, stats):
+            stats.finding(finding, case)
     return stats
 
 
